@@ -301,6 +301,11 @@ func init() {
 			p4.MaxValidators = 10
 			all4.Pos = &p4
 			scs = append(scs, Scenario{Name: "4val-all-in-set-many-leavers", Cfg: all4, Alphabet: many, K: k, D: d - 1, Tail: 1})
+			// a genesis with history, as a state export produces it: signing infos and missed-block
+			// arrays for the validators and for six former validators
+			hist := gs[0]
+			hist.GenHistory = []int{0, 1, 5, 6, 7, 8, 9, 10}
+			scs = append(scs, Scenario{Name: "2val-genesis-with-signing-history", Cfg: hist, Alphabet: c01alphabet(), K: 1, D: d - 1, Tail: 1})
 			return scs
 		},
 		Run: func(sc *Scenario, blocks []chain.Block) HistResult {
